@@ -283,6 +283,36 @@ impl C06 {
 			));
 			return v;
 		}
+		// a stored-transaction file that a log entry refers to is either readable or
+		// reported as an error: never "there is none" (silent loss) for a file that was
+		// written, however short the crash left it
+		{
+			let owner = run.ex.world.owner(w);
+			let mask = run.ex.world.mask(w);
+			let snap = run.ex.world.snap(w);
+			let active = snap.acct_path(&snap.active);
+			for t in &snap.txs {
+				if t.stored_tx.is_none() || Some(&t.parent_key_id) != active.as_ref() {
+					continue;
+				}
+				if let Some(id) = t.tx_slate_id {
+					let file = format!("{}/wallet_data/saved_txs/{}", run.ex.world.wallets[w].top_dir, t.stored_tx.clone().unwrap_or_default());
+					let len = std::fs::metadata(&file).map(|m| m.len() as i64).unwrap_or(-1);
+					if let Ok(None) = owner.get_stored_tx(mask.as_ref(), None, Some(&id)) {
+						v.push(run.viol(
+							"stored_tx_error_not_loss",
+							&format!("stored_tx_silently_lost:{}", kind),
+							format!(
+								"after {} in {} at {:?}: log entry {} refers to stored transaction {} (file length {}), get_stored_tx answers that there is none",
+								fk, kind, step.fault, t.id, t.stored_tx.clone().unwrap_or_default(), len
+							),
+						));
+						return v;
+					}
+					run.cov.probe("stored_tx_of_a_log_entry_read_back_after_a_fault");
+				}
+			}
+		}
 		// structural consistency
 		let snap = run.ex.world.snap(w);
 		for o in &snap.outputs {
